@@ -53,6 +53,16 @@ Example long_token_total :
     (DPkt None None (Some (mkLpf None None None (repeat 7 1000) None None None None (Some [6;0])))) [] = HOk rs_init [].
 Proof. vm_compute. reflexivity. Qed.
 
+(* Internal (management) face: InternalTransport.Receive dereferences IncomingFaceId of every frame it is given; the frames it is
+   given are those of the internal face's own link service.  With incoming-face indication on and the incoming face named
+   (the forwarding thread always names it), every frame of every packet - every fragment - carries the field: no nil dereference. *)
+Theorem internal_receive_total : forall mtu hdr o sq tok i mark wire,
+  o_ifi o = true ->
+  Forall (fun f => internal_receive (DPkt None None (Some f)) <> IPanic)
+         (fst (send_fields_h mtu hdr o sq tok (Some i) mark wire)).
+Proof. exact internal_receive_total_lemma. Qed.
+Print Assumptions internal_receive_total.
+
 (* A frame that fails to decode changes no forwarder state: store and counters equal, nothing dispatched. *)
 Theorem bad_frame_state_unchanged : forall g c inner st frame, handle_frame g c inner st DErr frame = HOk st [].
 Proof. exact bad_frame_state_unchanged_lemma. Qed.
